@@ -242,6 +242,9 @@ func vrtIntrinsic(ex *Exec, fn *ssa.Function, args []Value, site string) Value {
 	case "Owned":
 		ex.footprintOwn(unwrapAny(args[0]))
 		return Tuple{}
+	case "ZoneDST2": // ZoneDST2(off int, dst bool, next int, hasNext bool): as ZoneDST, plus the offset in force after this rule ends (if it ends)
+		ex.opaqueID++
+		return Opaque{Kind: "loc", ID: ex.opaqueID, Data: map[string]Value{"off": args[0].(*T), "dst": args[1].(*T), "next": args[2].(*T), "hasNext": args[3].(*T)}}
 	case "ZoneDST": // ZoneDST(offsetSeconds int, dst bool) *time.Location: a zone whose single rule has the given total offset and DST flag
 		ex.opaqueID++
 		return Opaque{Kind: "loc", ID: ex.opaqueID, Data: map[string]Value{"off": args[0].(*T), "dst": args[1].(*T)}}
